@@ -733,3 +733,880 @@ SUBCHECKS.append(
     SubCheck('roundtrip_large', run_roundtrip_large, enumerate_cases=enum_roundtrip_large,
              rule="pseudo-random simple/directed/acyclic/bipartite graphs with 150-400 vertices and 4095..20000 edges written and read back (StringIO and file) in kthlist, dimacs, matrix and gml; oracle: same vertices, sides and edges; in-house formats also parsed by the harness; non-trivial: all",
              required_labels=['edges>=4096', 'simple', 'bipartite', 'dag']))
+
+
+# ---------------------------------------------------------------------------
+# (c) the file describes the object as it is when it is written: objects with a history (inspected,
+# written, then edited, then written again) and objects that represent their graph in another way
+# (subclasses, special constructors, conversions from networkx, command line constructions).
+#
+# A case is   {'gtype', 'ctor': [how, args...], 'n' | 'L','R', 'edges', 'steps': [...], 'route', 'rseed'}
+# The steps are symbolic (indices into the sorted list of present edges / absent legal pairs of the
+# harness-side model at that moment), so that a case is legal by construction whatever graph a random
+# construction delivers:
+#   ['look', kind]            inspection (edges() iterated, to_networkx, neighbour lists, has_edge ...)
+#   ['write', fmt, route]     write + read back now; the file must be the model as it is now
+#   ['add', j]                add_edge of the j-th absent legal pair
+#   ['add-present', i]        add_edge of the i-th present edge again (odd i, simple graph: other orientation)
+#   ['remove', i, flip]       remove_edge of the i-th present edge              (simple graphs only)
+#   ['rewire', i, j, flip]    remove_edge of the i-th edge, add_edge of the j-th absent pair: same count
+#   ['grow', k]               update_vertex_number(n + k)                         (simple graphs only)
+#   ['grow-attach', k, j]     grow by k, then join the last new vertex with the j-th old vertex
+#   ['batch', j, cnt]         add_edges_from of cnt absent pairs from the j-th on
+#   ['split', k, seed]        split_random_edges(G, k, seed)                      (simple graphs only)
+#   ['addrandom', k, seed]    add_random_missing_edges(G, k, seed)                (simple, bipartite)
+# After split / addrandom (random edits made by the library) the model is read again from the object,
+# through has_edge on every pair of vertices.
+
+OBJ_MAXN = 20
+OBJ_LOOKS = {
+    'simple': ['edges', 'edges-twice', 'edges-len', 'nx', 'nx-mutate', 'nbrs', 'has', 'deg', 'count'],
+    'digraph': ['edges', 'edges-twice', 'edges-len', 'nx', 'nx-mutate', 'nbrs', 'has', 'deg', 'count',
+                'succ-order', 'isdag'],
+    'bipartite': ['edges', 'edges-twice', 'edges-len', 'nx', 'nx-mutate', 'nbrs', 'nbrs-mutate', 'has', 'deg',
+                  'count'],
+}
+OBJ_LOOKS['dag'] = OBJ_LOOKS['digraph']
+OBJ_ROUTES = ['stringio', 'filename', 'filehandle']
+
+
+class _ObjModel(object):
+    """Harness-side model of one graph object: the vertex count(s) and a Python set of edges."""
+
+    def __init__(self, gtype, n=None, L=None, Rr=None, edges=()):
+        self.gtype = gtype
+        self.n, self.L, self.R = n, L, Rr
+        self.E = set()
+        for u, v in edges:
+            if not self.legal(u, v):
+                raise ValueError("case lists the pair {} that is not legal for {}".format((u, v), self.sizes()))
+            self.E.add(self.norm(u, v))
+
+    def sizes(self):
+        return "{} graph ({},{})".format(self.gtype, self.L, self.R) if self.gtype == 'bipartite' \
+            else "{} graph ({})".format(self.gtype, self.n)
+
+    def norm(self, u, v):
+        return (min(u, v), max(u, v)) if self.gtype == 'simple' else (u, v)
+
+    def legal(self, u, v):
+        if self.gtype == 'bipartite':
+            return 1 <= u <= self.L and 1 <= v <= self.R
+        if not (1 <= u <= self.n and 1 <= v <= self.n):
+            return False
+        if self.gtype == 'simple':
+            return u != v
+        if self.gtype == 'dag':
+            return u < v
+        return True
+
+    def order(self):
+        return self.L + self.R if self.gtype == 'bipartite' else self.n
+
+    def pairs(self):
+        return [tuple(p) for p in _pairs(self.gtype, n=self.n, L=self.L, Rr=self.R)]
+
+    def present(self):
+        return sorted(self.E)
+
+    def absent(self):
+        return [p for p in self.pairs() if p not in self.E]
+
+    def desc(self):
+        if self.gtype == 'bipartite':
+            return R.make_desc(self.gtype, L=self.L, R=self.R, edges=sorted(self.E))
+        return R.make_desc(self.gtype, n=self.n, edges=sorted(self.E))
+
+    def resync(self, G):
+        """After an edit made by the library itself: the vertex counts and has_edge on every pair."""
+        if self.gtype == 'bipartite':
+            self.L, self.R = G.left_order(), G.right_order()
+        else:
+            self.n = G.number_of_vertices()
+        self.E = set(p for p in self.pairs() if G.has_edge(p[0], p[1]))
+
+
+def _gm_model(M):
+    from vlib import graphmodel as gm
+    clsname = {'simple': 'Graph', 'digraph': 'DirectedGraph', 'dag': 'DirectedGraph',
+               'bipartite': 'BipartiteGraph'}[M.gtype]
+    X = gm.Model(clsname, n=M.n, L=M.L, R=M.R)
+    X.E = set(M.E)
+    return gm, X
+
+
+def _nx_generated(gtype, name, args):
+    """A graph made by a networkx generator and the graph it is under the relabelling 'sorted labels -> 1..n'
+    (for the bipartite generator: each side in increasing order)."""
+    import networkx
+    if name == 'complete_bipartite_graph':
+        a, b = args
+        return (networkx.complete_bipartite_graph(a, b),
+                _ObjModel(gtype, L=a, Rr=b, edges=[(u, v) for u in range(1, a + 1) for v in range(1, b + 1)]))
+    n = args[0]
+    directed = gtype in ('digraph', 'dag')
+    using = networkx.DiGraph if directed else networkx.Graph
+    if name == 'complete_graph':
+        X = networkx.complete_graph(n, create_using=using)
+        if directed:
+            edges = [(u, v) for u in range(1, n + 1) for v in range(1, n + 1) if u != v]
+        else:
+            edges = [(u, v) for u in range(1, n + 1) for v in range(u + 1, n + 1)]
+    elif name == 'path_graph':
+        X = networkx.path_graph(n, create_using=using)
+        edges = [(u, u + 1) for u in range(1, n)]
+    elif name == 'cycle_graph':
+        X = networkx.cycle_graph(n, create_using=using)
+        edges = [(u, u + 1) for u in range(1, n)] + ([(n, 1)] if directed else [(1, n)])
+        if n < 3:
+            raise ValueError("cycle_graph needs n >= 3 in a case")
+    elif name == 'star_graph':
+        X = networkx.star_graph(n - 1)          # centre 0, leaves 1..n-1
+        edges = [(1, v) for v in range(2, n + 1)]
+    elif name == 'grid_2d_graph':
+        a, b = args
+        X = networkx.grid_2d_graph(a, b)        # labels (i, j), sorted lexicographically
+        num = lambda i, j: i * b + j + 1
+        edges = [(num(i, j), num(i + 1, j)) for i in range(a - 1) for j in range(b)]
+        edges += [(num(i, j), num(i, j + 1)) for i in range(a) for j in range(b - 1)]
+        n = a * b
+    elif name == 'string_labels':
+        # labels that are strings of digits: numbered as numbers ('2' before '10')
+        X = networkx.DiGraph() if directed else networkx.Graph()
+        X.add_nodes_from(str(3 * i) for i in range(n, 0, -1))
+        edges = [(u, u + 1) for u in range(1, n)]
+        X.add_edges_from((str(3 * u), str(3 * v)) for u, v in edges)
+    else:
+        raise ValueError("unknown networkx generator in case: {}".format(name))
+    return X, _ObjModel(gtype, n=n, edges=edges)
+
+
+def _obj_construct(case, tmp):
+    """Returns (G, M, independent, notes): the object built as case['ctor'] says and the model of the graph
+    it has to be; independent=False when the construction is random (or left to C15) and the model was read
+    from the object.  notes: list of (label)."""
+    import random
+    import cnfgen.graphs as CG
+    from cnfgen.graphs import readGraph
+    gtype = case['gtype']
+    cls = _classes()[gtype]
+    ctor = case['ctor']
+    how = ctor[0]
+    notes = []
+
+    def declared():
+        if gtype == 'bipartite':
+            return _ObjModel(gtype, L=case['L'], Rr=case['R'], edges=case['edges'])
+        return _ObjModel(gtype, n=case['n'], edges=case['edges'])
+
+    def fresh():
+        return cls(case['L'], case['R']) if gtype == 'bipartite' else cls(case['n'])
+
+    def from_object(G):
+        M = _ObjModel(gtype, n=0, L=0, Rr=0)
+        M.resync(G)
+        notes.append('model-read-from-object')
+        return M
+
+    if how == 'add_edge':
+        M = declared()
+        G = fresh()
+        for u, v in case['edges']:              # in the order of the case
+            G.add_edge(u, v)
+        return G, M, True, notes
+    if how == 'add_edges_from':
+        M = declared()
+        G = fresh()
+        G.add_edges_from([tuple(e) for e in case['edges']])
+        return G, M, True, notes
+    if how in ('from_networkx', 'normalize'):
+        M = declared()
+        gm, X = _gm_model(M)
+        Y = gm.foreign_networkx(X, mul=ctor[1], add=ctor[2], rev=bool(ctor[3]))
+        G = cls.from_networkx(Y) if how == 'from_networkx' else cls.normalize(Y)
+        return G, M, True, notes
+    if how == 'read':
+        M = declared()
+        fmt, style = ctor[1], ctor[2]
+        d = M.desc()
+        if fmt not in CG.supported_graph_formats()[gtype]:
+            fmt = 'kthlist'
+        if fmt in R.INHOUSE[gtype]:
+            text = R.write_inhouse(fmt, gtype, d, style & 41)
+            if R.ref_read(fmt, gtype, text).status != 'valid':
+                text = R.write_inhouse(fmt, gtype, d, 0)
+            if R.ref_read(fmt, gtype, text).status != 'valid':
+                # a graph the description of the format leaves open (a loop ...): built directly
+                notes.append('read-fallback')
+                G = fresh()
+                for u, v in d['edges']:
+                    G.add_edge(u, v)
+                return G, M, True, notes
+        else:
+            N = M.order()
+            off = M.L if gtype == 'bipartite' else 0
+            doc = {'gtype': gtype, 'ids': list(range(1, N + 1)), 'order': list(range(N)),
+                   'edges': [[u - 1, v + off - 1] for u, v in d['edges']],
+                   'side': ([0] * M.L + [1] * M.R) if gtype == 'bipartite' else None, 'style': style & 3}
+            text = R.write_doc(fmt, doc)
+        with _quiet():
+            G = readGraph(io.StringIO(text), gtype, fmt)
+        return G, M, True, notes
+    if how == 'nxgen':
+        Y, M = _nx_generated(gtype, ctor[1], ctor[2:])
+        G = cls.normalize(Y) if case.get('rseed', 0) % 2 else cls.from_networkx(Y)
+        return G, M, True, notes
+    if how == 'special':
+        name, args = ctor[1], ctor[2:]
+        if name == 'complete_graph':
+            n = args[0]
+            return (CG.Graph.complete_graph(n),
+                    _ObjModel(gtype, n=n, edges=[(u, v) for u in range(1, n + 1) for v in range(u + 1, n + 1)]),
+                    True, notes)
+        if name == 'empty_graph':
+            return CG.Graph.empty_graph(args[0]), _ObjModel(gtype, n=args[0]), True, notes
+        if name == 'null_graph':
+            return CG.Graph.null_graph(), _ObjModel(gtype, n=0), True, notes
+        if name == 'star_graph':
+            k = args[0]
+            return (CG.Graph.star_graph(k), _ObjModel(gtype, n=k + 1, edges=[(u, k + 1) for u in range(1, k + 1)]),
+                    True, notes)
+        if name == 'CompleteBipartiteGraph':
+            a, b = args
+            return (CG.CompleteBipartiteGraph(a, b),
+                    _ObjModel(gtype, L=a, Rr=b, edges=[(u, v) for u in range(1, a + 1) for v in range(1, b + 1)]),
+                    True, notes)
+        if name == 'BipartiteGraph':
+            a, b = args
+            return CG.BipartiteGraph(a, b), _ObjModel(gtype, L=a, Rr=b), True, notes
+        if name == 'dag_path':
+            k = args[0]
+            return CG.dag_path(k), _ObjModel(gtype, n=k + 1, edges=[(u, u + 1) for u in range(1, k + 1)]), True, notes
+        if name == 'bipartite_shift':
+            a, b, pattern = args[0], args[1], list(args[2:])
+            edges = set((u, 1 + (u - 1 + o) % b) for u in range(1, a + 1) for o in pattern)
+            return CG.bipartite_shift(a, b, pattern), _ObjModel(gtype, L=a, Rr=b, edges=sorted(edges)), True, notes
+        if name in ('dag_pyramid', 'dag_complete_binary_tree'):
+            G = getattr(CG, name)(args[0])
+            return G, from_object(G), False, notes
+        if name in ('bipartite_random_left_regular', 'bipartite_random_m_edges', 'bipartite_random_regular',
+                    'bipartite_random'):
+            a, b, c = args
+            if name == 'bipartite_random':
+                c = c / 100.0
+            G = getattr(CG, name)(a, b, c, seed=case.get('rseed', 0))
+            return G, from_object(G), False, notes
+        raise ValueError("unknown special constructor in case: {}".format(name))
+    if how == 'cli':
+        from cnfgen.clitools.graph_args import make_graph_from_spec
+        spec = [str(t) for t in ctor[1:]]
+        saved = None
+        if case.get('cli_save'):
+            sfmt, explicit = case['cli_save']
+            if explicit:
+                saved = os.path.join(tmp, 'saved_by_cli')
+                spec += ['save', sfmt, saved]
+            else:
+                saved = os.path.join(tmp, 'saved_by_cli.' + sfmt)
+                spec += ['save', saved]
+            notes.append('cli-save:' + sfmt)
+        random.seed(case.get('rseed', 0))
+        with _quiet():
+            G = make_graph_from_spec(gtype, spec)
+        independent = False
+        cname, nums = spec[0], []
+        for t in spec[1:]:
+            try:
+                nums.append(int(t))
+            except ValueError:
+                break
+        plain = (len(nums) == len(ctor) - 2)         # no option after the construction
+        if plain and gtype == 'simple' and cname == 'complete' and len(nums) == 1:
+            n = nums[0]
+            M = _ObjModel(gtype, n=n, edges=[(u, v) for u in range(1, n + 1) for v in range(u + 1, n + 1)])
+            independent = True
+        elif plain and gtype == 'simple' and cname == 'empty':
+            M = _ObjModel(gtype, n=nums[0])
+            independent = True
+        elif plain and gtype == 'bipartite' and cname in ('complete', 'empty'):
+            a, b = nums
+            M = _ObjModel(gtype, L=a, Rr=b, edges=[(u, v) for u in range(1, a + 1) for v in range(1, b + 1)]
+                          if cname == 'complete' else [])
+            independent = True
+        elif plain and cname == 'path':
+            k = nums[0]
+            M = _ObjModel(gtype, n=k + 1, edges=[(u, u + 1) for u in range(1, k + 1)])
+            independent = True
+        else:
+            M = from_object(G)
+        if saved is not None:
+            notes.append(('saved-file', saved, sfmt))
+        return G, M, independent, notes
+    raise ValueError("unknown constructor in case: {}".format(how))
+
+
+def _obj_look(G, gtype, kind, M, keep):
+    N = M.order()
+    if kind == 'edges':
+        keep.append(list(G.edges()))
+    elif kind == 'edges-twice':
+        view = G.edges()
+        keep.append(view)
+        for _ in view:
+            pass
+        keep.append([e for e in view])
+    elif kind == 'edges-len':
+        keep.append(len(G.edges()))
+    elif kind == 'nx':
+        keep.append(G.to_networkx())
+    elif kind == 'nx-mutate':
+        # the caller owns the networkx graph it gets: changing it must not change G
+        X = G.to_networkx()
+        X.add_node(N + 7)
+        if N >= 1:
+            X.add_edge(1, N + 7)
+        if X.number_of_edges() > 0:
+            X.remove_edge(*list(X.edges())[0])
+        keep.append(X)
+    elif kind in ('nbrs', 'nbrs-mutate', 'deg'):
+        for u in range(1, (M.L if gtype == 'bipartite' else N) + 1):
+            if gtype == 'simple':
+                got = [list(G.neighbors(u))] if kind != 'deg' else [G.degree(u)]
+            elif gtype == 'bipartite':
+                got = [G.right_neighbors(u)] if kind != 'deg' else [G.right_degree(u)]
+            else:
+                got = [list(G.predecessors(u)), list(G.successors(u))] if kind != 'deg' else \
+                    [G.in_degree(u), G.out_degree(u)]
+            if kind == 'nbrs-mutate':
+                for l in got:
+                    if isinstance(l, list):     # a list handed out to the caller
+                        l.append(1)
+                        l.reverse()
+            keep.append(got)
+        if gtype == 'bipartite':
+            for v in range(1, M.R + 1):
+                got = G.left_neighbors(v) if kind != 'deg' else G.left_degree(v)
+                if kind == 'nbrs-mutate' and isinstance(got, list):
+                    got.append(1)
+                    got.reverse()
+                keep.append(got)
+    elif kind == 'has':
+        keep.append([G.has_edge(u, v) for u, v in M.pairs()])
+    elif kind == 'count':
+        keep.append((G.number_of_vertices(), G.number_of_edges(), len(G)))
+    elif kind == 'succ-order':
+        keep.append(list(G.edges_ordered_by_successors()))
+    elif kind == 'isdag':
+        keep.append(G.is_dag())
+    else:
+        raise ValueError("unknown inspection in case: {}".format(kind))
+
+
+def _obj_write_check(G, gtype, fmt, route, M, what, text_given=None):
+    """Writes G (or takes the text of a file already written) and reads it back: the model, exactly."""
+    from cnfgen.graphs import readGraph, writeGraph
+    want = M.desc()
+    labels = []
+    try:
+        with _quiet():
+            if text_given is not None:
+                text = text_given
+                H = readGraph(io.StringIO(text), gtype, fmt)
+            elif route == 'stringio':
+                buf = io.StringIO()
+                writeGraph(G, buf, gtype, fmt)
+                text = buf.getvalue()
+                H = readGraph(io.StringIO(text), gtype, fmt)
+            else:
+                with _tmpdir() as tmp:
+                    p = os.path.join(tmp, 'object.' + fmt)
+                    if route == 'filename':
+                        writeGraph(G, p, gtype)             # format from the extension
+                        H = readGraph(p, gtype)
+                    else:
+                        with open(p, 'w', encoding='utf-8') as f:
+                            writeGraph(G, f, gtype, fmt)
+                        with open(p, 'r', encoding='utf-8') as f:
+                            H = readGraph(f, gtype, fmt)
+                    with open(p, 'r', encoding='utf-8') as f:
+                        text = f.read()
+    except ValueError as e:
+        raise Violation("{}: writing the object and reading the file back raised ValueError({})".format(what, e),
+                        signature='obj-rejected')
+    if fmt in R.INHOUSE[gtype]:
+        ref = R.ref_read(fmt, gtype, text)
+        if ref.status == 'invalid' or ref.graph != want:
+            raise Violation("{}: the text written, {!r}, is not the graph {} for the reference reader ({} {})".format(
+                what, text, want, ref.status, ref.graph if ref.graph is not None else ref.why),
+                signature='obj-written-text')
+        labels.append('written-text-' + ref.status)
+    _check_same(gtype, want, H, what)
+    return labels
+
+
+def run_objects(case):
+    from cnfgen.graphs import supported_graph_formats, split_random_edges, add_random_missing_edges
+    gtype = case['gtype']
+    fmts = [f for f in FORMATS[gtype] if f in supported_graph_formats()[gtype]]
+    labels = set()
+    trace = []          # the concrete calls made so far, for the message
+
+    def ctx(extra):
+        return "{} object built by {}{}, then {}: {}".format(
+            gtype, case['ctor'], '' if case['ctor'][0] in ('special', 'cli', 'nxgen') else
+            ' from {}'.format({k: case[k] for k in ('n', 'L', 'R', 'edges') if k in case}),
+            ' '.join(trace) or 'nothing', extra)
+
+    with _tmpdir() as tmp:
+        G, M, independent, notes = _obj_construct(case, tmp)
+        labels.add('ctor:' + ':'.join(str(x) for x in case['ctor'][:2 if case['ctor'][0] in ('special', 'cli', 'nxgen', 'read') else 1]))
+        saved = None
+        for x in notes:
+            if isinstance(x, tuple):
+                saved = x
+            else:
+                labels.add(x if not x.startswith('cli-save:') else 'cli-save')
+        if independent:
+            got = R.describe(G, gtype)
+            if got != M.desc():
+                raise Violation(ctx("the object is {} instead of {}".format(got, M.desc())), signature='obj-initial')
+        if saved is not None:
+            _, path, sfmt = saved
+            if sfmt in fmts:
+                with open(path, 'r', encoding='utf-8') as f:
+                    text = f.read()
+                _obj_write_check(G, gtype, sfmt, None, M, ctx("the file saved by the command line in {} format".format(sfmt)),
+                                 text_given=text)
+                labels.add('{}/{}'.format(gtype, sfmt))
+
+    keep = []
+    looked = None       # (edge count, edge set, order) at the last inspection / writing
+    written = 0
+    edits = 0
+    edits_since_write = 0
+    for step in case['steps']:
+        op = step[0]
+        if op == 'look':
+            kind = step[1]
+            if kind not in OBJ_LOOKS[gtype]:
+                continue
+            _obj_look(G, gtype, kind, M, keep)
+            trace.append('look:' + kind)
+            labels.add('look:' + kind)
+            looked = (len(M.E), set(M.E), M.order())
+            continue
+        if op == 'write':
+            fmt, route = step[1], step[2]
+            if fmt not in fmts:
+                continue
+            trace.append('write:{}:{}'.format(fmt, route))
+            _obj_write_check(G, gtype, fmt, route, M, ctx("written in {} format ({})".format(fmt, route)))
+            _obj_note_pattern(labels, looked, M, written, edits_since_write)
+            looked = (len(M.E), set(M.E), M.order())
+            written += 1
+            edits_since_write = 0
+            labels.add('mid-history-write')
+            continue
+        present, simple = M.present(), gtype == 'simple'
+        before = (len(M.E), M.order())
+        if op == 'add':
+            absent = M.absent()
+            if not absent:
+                continue
+            u, v = absent[step[1] % len(absent)]
+            if simple and step[1] % 2:
+                u, v = v, u
+            G.add_edge(u, v)
+            M.E.add(M.norm(u, v))
+            trace.append('add_edge({},{})'.format(u, v))
+        elif op == 'add-present':
+            if not present:
+                continue
+            u, v = present[step[1] % len(present)]
+            if simple and step[1] % 2:
+                u, v = v, u
+            G.add_edge(u, v)
+            trace.append('add_edge({},{})'.format(u, v))
+        elif op in ('remove', 'rewire'):
+            if not simple or not present:
+                continue
+            absent = M.absent()
+            if op == 'rewire' and not absent:
+                continue
+            flip = step[-1]
+            u, v = present[step[1] % len(present)]
+            if flip & 1:
+                u, v = v, u
+            G.remove_edge(u, v)
+            M.E.discard(M.norm(u, v))
+            trace.append('remove_edge({},{})'.format(u, v))
+            if op == 'rewire':
+                u, v = absent[step[2] % len(absent)]
+                if flip & 2:
+                    u, v = v, u
+                G.add_edge(u, v)
+                M.E.add(M.norm(u, v))
+                trace.append('add_edge({},{})'.format(u, v))
+                labels.add('rewire')
+        elif op in ('grow', 'grow-attach'):
+            if not simple:
+                continue
+            k = max(1, min(step[1], OBJ_MAXN - M.n))
+            if M.n + k > OBJ_MAXN:
+                continue
+            old = M.n
+            G.update_vertex_number(old + k)
+            M.n = old + k
+            trace.append('update_vertex_number({})'.format(M.n))
+            labels.add('grow')
+            if op == 'grow-attach' and old >= 1:
+                u = 1 + step[2] % old
+                G.add_edge(M.n, u)
+                M.E.add(M.norm(M.n, u))
+                trace.append('add_edge({},{})'.format(M.n, u))
+        elif op == 'batch':
+            absent = M.absent()
+            if not absent:
+                continue
+            j, cnt = step[1] % len(absent), max(1, min(step[2], len(absent)))
+            chosen = [absent[(j + 3 * i) % len(absent)] for i in range(cnt)]
+            G.add_edges_from(list(chosen))
+            M.E.update(M.norm(u, v) for u, v in chosen)
+            trace.append('add_edges_from({})'.format(chosen))
+        elif op == 'split':
+            if not simple:
+                continue
+            k = min(step[1], len(M.E), OBJ_MAXN - M.n)
+            if k < 1:
+                continue
+            split_random_edges(G, k, step[2])
+            M.resync(G)
+            trace.append('split_random_edges({},seed={})'.format(k, step[2]))
+            labels.add('split')
+        elif op == 'addrandom':
+            if gtype not in ('simple', 'bipartite'):
+                continue
+            k = min(step[1], len(M.absent()))
+            if k < 1:
+                continue
+            add_random_missing_edges(G, k, step[2])
+            M.resync(G)
+            trace.append('add_random_missing_edges({},seed={})'.format(k, step[2]))
+            labels.add('addrandom')
+        else:
+            raise ValueError("unknown step in case: {}".format(step))
+        edits += 1
+        edits_since_write += 1
+        if looked is not None:
+            labels.add('edit-after-inspection')
+
+    # at the end: every format of the type
+    route = case.get('route', 'stringio')
+    for fmt in fmts:
+        labels.add('{}/{}'.format(gtype, fmt))
+        got = _obj_write_check(G, gtype, fmt, route, M,
+                               ctx("written at the end in {} format ({})".format(fmt, route)))
+        labels.update(got)
+    _obj_note_pattern(labels, looked, M, written, edits_since_write)
+    if 'dot' not in fmts:
+        labels.add('dot-not-available')
+    labels.add('route:' + route)
+    labels.update(_shape_labels(gtype, M.desc()))
+    if edits:
+        labels.add('edited')
+    nontrivial = len(M.E) >= 1 and M.order() >= 3 and (edits >= 1 or case['ctor'][0] not in ('add_edge',))
+    return Outcome(labels=sorted(labels), nontrivial=nontrivial)
+
+
+def _obj_note_pattern(labels, looked, M, written, edits_since_write):
+    if looked is not None:
+        m, E, order = looked
+        if m == len(M.E) and E != M.E:
+            labels.add('same-count-other-edges-since-inspection')
+        if order != M.order():
+            labels.add('grown-since-inspection')
+        if m != len(M.E):
+            labels.add('other-count-since-inspection')
+    if written >= 1 and edits_since_write >= 1:
+        labels.add('written-twice-with-an-edit-in-between')
+
+
+# ----- generated objects
+
+def _lcg_edges(gtype, m, salt, n=None, L=None, Rr=None):
+    """m distinct legal pairs (fewer when there are not that many), in a pseudo-random order of insertion."""
+    P = _pairs(gtype, n=n, L=L, Rr=Rr)
+    x = salt * 7919 + 17
+    out = []
+    P = list(P)
+    while P and len(out) < m:
+        x = (x * 1103515245 + 12345) & 0x7FFFFFFF
+        out.append(P.pop((x >> 8) % len(P)))
+    return out
+
+
+def _obj_table():
+    """Other representations of a graph, per type: (ctor, extra keys)."""
+    T = {t: [] for t in R.TYPES}
+    add = lambda t, ctor, **kw: T[t].append(dict(kw, ctor=list(ctor)))
+    # ---- bipartite
+    for a, b in [(1, 1), (2, 3), (3, 11), (4, 4), (1, 12), (12, 1), (0, 3), (3, 0), (0, 0), (6, 9)]:
+        add('bipartite', ['special', 'CompleteBipartiteGraph', a, b])
+    for a, b in [(0, 0), (2, 0), (0, 2), (3, 4), (5, 7)]:
+        add('bipartite', ['special', 'BipartiteGraph', a, b])
+    for args in [(3, 4, 0, 1), (5, 7, 0, 2, 3), (4, 3), (6, 6, 0, 3, 6), (11, 2, 1)]:
+        add('bipartite', ['special', 'bipartite_shift'] + list(args))
+    for name, args in [('bipartite_random_left_regular', (4, 6, 3)), ('bipartite_random_left_regular', (5, 11, 2)),
+                       ('bipartite_random_m_edges', (4, 5, 3)), ('bipartite_random_m_edges', (4, 5, 15)),
+                       ('bipartite_random_m_edges', (3, 9, 27)), ('bipartite_random_regular', (4, 6, 3)),
+                       ('bipartite_random_regular', (6, 4, 2)), ('bipartite_random', (5, 6, 50)),
+                       ('bipartite_random', (3, 10, 100)), ('bipartite_random', (3, 3, 0))]:
+        add('bipartite', ['special', name] + list(args))
+    for spec in [['complete', 2, 3], ['complete', 3, 11], ['complete', 1, 1], ['complete', 5, 5], ['empty', 3, 4],
+                 ['glrd', 5, 7, 3], ['glrd', 3, 11, 11], ['glrm', 4, 6, 5], ['glrm', 4, 6, 20], ['glrp', 5, 6, '0.5'],
+                 ['regular', 4, 6, 3], ['shift', 5, 7, 0, 1, 3], ['glrd', 5, 7, 2, 'plantbiclique', 2, 3],
+                 ['glrm', 4, 6, 5, 'addedges', 4], ['complete', 3, 4, 'plantbiclique', 2, 2],
+                 ['empty', 4, 7, 'plantbiclique', 2, 3, 'addedges', 3]]:
+        add('bipartite', ['cli'] + spec)
+    for a, b in [(5, 7), (1, 1), (3, 11)]:
+        add('bipartite', ['nxgen', 'complete_bipartite_graph', a, b])
+    # ---- simple
+    for n in (0, 1, 2, 3, 5, 10, 12):
+        add('simple', ['special', 'complete_graph', n])
+    for n in (0, 1, 4, 11):
+        add('simple', ['special', 'empty_graph', n])
+    add('simple', ['special', 'null_graph'])
+    for k in (0, 1, 3, 10):
+        add('simple', ['special', 'star_graph', k])
+    for spec in [['complete', 1], ['complete', 4], ['complete', 11], ['complete', 3, 3], ['complete', 2, 5],
+                 ['empty', 1], ['empty', 12], ['gnp', 8, '0.5'], ['gnp', 4, '0.5', 3], ['gnm', 10, 12],
+                 ['gnd', 8, 3], ['grid', 3, 4], ['grid', 2, 2, 3], ['torus', 3, 4], ['torus', 1, 5],
+                 ['gnm', 8, 10, 'plantclique', 4], ['gnm', 8, 10, 'addedges', 3], ['grid', 3, 3, 'splitedges', 2],
+                 ['gnp', 7, '0.5', 'plantclique', 3, 'addedges', 2, 'splitedges', 2],
+                 ['complete', 5, 'splitedges', 3], ['empty', 6, 'addedges', 6]]:
+        add('simple', ['cli'] + spec)
+    for name, args in [('complete_graph', (5,)), ('path_graph', (11,)), ('cycle_graph', (10,)), ('star_graph', (6,)),
+                       ('grid_2d_graph', (3, 4)), ('string_labels', (12,)), ('path_graph', (1,)),
+                       ('complete_graph', (0,))]:
+        add('simple', ['nxgen', name] + list(args))
+    # ---- directed
+    for t in ('digraph', 'dag'):
+        for k in (0, 1, 5, 11):
+            add(t, ['special', 'dag_path', k])
+        for h in (0, 1, 3):
+            add(t, ['special', 'dag_pyramid', h])
+            add(t, ['special', 'dag_complete_binary_tree', h])
+        for spec in [['path', 4], ['path', 0], ['tree', 2], ['pyramid', 3], ['pyramid', 0]]:
+            add(t, ['cli'] + spec)
+        for name, args in [('path_graph', (10,)), ('string_labels', (11,)), ('path_graph', (0,))]:
+            add(t, ['nxgen', name] + list(args))
+    add('digraph', ['nxgen', 'complete_graph', 4])
+    add('digraph', ['nxgen', 'cycle_graph', 5])
+    return T
+
+
+_OBJ_TABLE = _obj_table()
+_OBJ_SCRIPT = {
+    'simple': [['look', 'edges'], ['rewire', 1, 2, 0], ['grow-attach', 2, 0], ['write', 'gml', 'stringio'],
+               ['remove', 0, 1], ['add', 5]],
+    'digraph': [['look', 'nx'], ['add', 3], ['write', 'dimacs', 'stringio'], ['batch', 1, 3]],
+    'dag': [['look', 'succ-order'], ['add', 3], ['write', 'kthlist', 'filename'], ['batch', 1, 3]],
+    'bipartite': [['look', 'nbrs'], ['add', 3], ['write', 'matrix', 'stringio'], ['addrandom', 2, 5],
+                  ['add-present', 1]],
+}
+
+
+def _obj_declared(gtype, salt, big=False):
+    """A graph given by its sizes and an insertion order of its edges."""
+    if gtype == 'bipartite':
+        L, Rr = [(3, 4), (5, 7), (2, 9), (6, 6)][salt % 4] if not big else [(5, 7), (3, 11)][salt % 2]
+        return {'L': L, 'R': Rr, 'edges': _lcg_edges(gtype, 4 + salt % 5, salt, L=L, Rr=Rr)}
+    n = [4, 6, 5, 8][salt % 4] if not big else [11, 12][salt % 2]
+    return {'n': n, 'edges': _lcg_edges(gtype, 4 + salt % 5, salt, n=n)}
+
+
+def enum_objects(tier):
+    k = 0
+
+    def case(gtype, base, steps, **kw):
+        nonlocal k
+        k += 1
+        c = {'gtype': gtype, 'steps': [list(s) for s in steps], 'route': OBJ_ROUTES[k % 3], 'rseed': k}
+        c.update(base)
+        c.update(kw)
+        return c
+
+    # (1) other representations: as they are, and after a short history; command-line constructions also
+    #     with `save` in every format (format named, or taken from the extension)
+    for gtype in R.TYPES:
+        for ti, base in enumerate(_OBJ_TABLE[gtype]):
+            yield case(gtype, base, [])
+            yield case(gtype, base, _OBJ_SCRIPT[gtype])
+            if base['ctor'][0] == 'cli':
+                for j, fmt in enumerate(FORMATS[gtype]):
+                    if tier == 'quick' and (j + ti) % 2:
+                        continue            # quick: two of the four formats per specification, rotating
+                    yield case(gtype, base, [] if j % 2 else _OBJ_SCRIPT[gtype][:3],
+                               cli_save=[fmt, bool((j // 2 + ti) % 2)])
+        mods = [['from_networkx', 1, 0, 0], ['normalize', 2, -1, 1], ['from_networkx', 3, 3, 0], ['add_edges_from']]
+        mods += [['read', f, s] for f in FORMATS[gtype] for s in (0, 1)]
+        for j, ctor in enumerate(mods):
+            base = _obj_declared(gtype, j, big=(j % 3 == 2))
+            base['ctor'] = ctor
+            yield case(gtype, base, [])
+            yield case(gtype, base, _OBJ_SCRIPT[gtype])
+
+    # (2) one inspection, one edit, then every format: every pair (inspection, edit)
+    edits = {
+        'simple': [[['rewire', 0, 0, 0]], [['rewire', 3, 5, 3]], [['remove', 1, 0]], [['add', 2]],
+                   [['grow', 2]], [['grow-attach', 1, 1]], [['remove', 2, 1], ['add-present', 0], ['add', 4]],
+                   [['remove', 0, 0], ['remove', 0, 0], ['add', 1], ['add', 6]], [['split', 2, 3]],
+                   [['batch', 0, 3], ['remove', 1, 0]], [['addrandom', 2, 1], ['rewire', 1, 1, 1]]],
+        'digraph': [[['add', 2]], [['add-present', 1]], [['batch', 0, 4]]],
+        'dag': [[['add', 2]], [['batch', 2, 3]]],
+        'bipartite': [[['add', 2]], [['add-present', 0]], [['batch', 1, 4]], [['addrandom', 3, 2]]],
+    }
+    ctors = {
+        'simple': [['add_edge'], ['from_networkx', 2, 1, 1], ['read', 'dimacs', 0], ['special', 'complete_graph', 4],
+                   ['read', 'gml', 1], ['add_edges_from']],
+        'digraph': [['add_edge'], ['normalize', 1, 0, 0]],
+        'dag': [['add_edge'], ['special', 'dag_pyramid', 2]],
+        'bipartite': [['add_edge'], ['from_networkx', 1, 0, 1], ['special', 'bipartite_shift', 4, 5, 0, 2]],
+    }
+    for gtype in R.TYPES:
+        looks = [['look', x] for x in OBJ_LOOKS[gtype]] + [['write', f, 'stringio'] for f in FORMATS[gtype]]
+        use = ctors[gtype] if tier == 'thorough' else ctors[gtype][:4 if gtype == 'simple' else 2]
+        for ci, ctor in enumerate(use):
+            for li, look in enumerate(looks):
+                for ei, edit in enumerate(edits[gtype]):
+                    if tier == 'quick' and (ci + li + ei) % 2:
+                        continue            # quick: every (inspection, edit) pair with half of the constructions
+                    base = {'ctor': ctor}
+                    if ctor[0] != 'special':
+                        base.update(_obj_declared(gtype, ci + li + ei, big=((li + ei) % 5 == 0)))
+                    yield case(gtype, base, [look] + edit)
+
+    # (3) the same object written twice, in every pair of formats, with an edit in between
+    between = {'simple': [[['rewire', 2, 3, 2]], [['grow-attach', 2, 2]], [['remove', 0, 0]]],
+               'digraph': [[['add', 5]]], 'dag': [[['add', 1]]], 'bipartite': [[['add', 4]], [['batch', 0, 2]]]}
+    for gtype in R.TYPES:
+        for f1 in FORMATS[gtype]:
+            for ri, route in enumerate(OBJ_ROUTES):
+                for ei, edit in enumerate(between[gtype]):
+                    if tier == 'quick' and (ri + ei) % 3 and gtype != 'simple':
+                        continue
+                    base = _obj_declared(gtype, ri + ei + len(f1))
+                    base['ctor'] = ['add_edge']
+                    # first writing in f1, the edit, then (at the end) every format f2
+                    yield case(gtype, base, [['write', f1, route]] + edit)
+
+
+_BIG = st.integers(0, 10 ** 6)
+_SMALL = st.integers(0, 7)
+_OBJ_OPS = {
+    'simple': ['look', 'look', 'write', 'rewire', 'rewire', 'remove', 'add', 'add', 'add-present', 'grow',
+               'grow-attach', 'batch', 'split', 'addrandom'],
+    'digraph': ['look', 'look', 'write', 'add', 'add', 'add-present', 'batch'],
+    'dag': ['look', 'look', 'write', 'add', 'add', 'add-present', 'batch'],
+    'bipartite': ['look', 'look', 'write', 'add', 'add', 'add-present', 'batch', 'addrandom'],
+}
+_OBJ_CTORS = st.sampled_from(['add_edge', 'add_edges_from', 'from_networkx', 'normalize', 'read', 'table', 'table'])
+_OBJ_NSTEPS = st.sampled_from([0, 1, 2, 3, 3, 4, 5, 6, 8, 10])
+_OBJ_TYPE = st.sampled_from(R.TYPES)
+_OBJ_ROUTE = st.sampled_from(OBJ_ROUTES)
+_OBJ_OPS_ST = {t: st.sampled_from(v) for t, v in _OBJ_OPS.items()}
+_OBJ_GRAPH_ST = {t: strat_graph(t) for t in R.TYPES}
+
+
+@st.composite
+def strat_objects(draw):
+    import random
+    gtype = draw(_OBJ_TYPE)
+    how = draw(_OBJ_CTORS)
+    rseed = draw(_BIG) % 10007
+    a, b = draw(_BIG), draw(_BIG)
+    if how == 'table':
+        c = dict(_OBJ_TABLE[gtype][a % len(_OBJ_TABLE[gtype])])
+        c['ctor'] = list(c['ctor'])
+        c['gtype'] = gtype
+        if c['ctor'][0] == 'cli' and b % 2:
+            c['cli_save'] = [FORMATS[gtype][(b // 2) % 4], bool((b // 8) % 2)]
+    else:
+        c = draw(_OBJ_GRAPH_ST[gtype])
+        if a % 2:
+            random.Random(rseed).shuffle(c['edges'])       # the order of insertion
+        if how in ('from_networkx', 'normalize'):
+            c['ctor'] = [how, 1 + b % 3, (b // 3) % 7 - 3, (b // 21) % 2]
+        elif how == 'read':
+            c['ctor'] = [how, FORMATS[gtype][b % 4], (b // 4) % 64]
+        else:
+            c['ctor'] = [how]
+    steps = []
+    ops = _OBJ_OPS_ST[gtype]
+    for _ in range(draw(_OBJ_NSTEPS)):
+        op = draw(ops)
+        x, y = draw(_BIG), draw(_SMALL)
+        if op == 'look':
+            steps.append([op, OBJ_LOOKS[gtype][x % len(OBJ_LOOKS[gtype])]])
+        elif op == 'write':
+            steps.append([op, FORMATS[gtype][x % 4], OBJ_ROUTES[y % 3]])
+        elif op in ('add', 'add-present'):
+            steps.append([op, x])
+        elif op == 'remove':
+            steps.append([op, x, y % 2])
+        elif op == 'rewire':
+            steps.append([op, x, x // 1000, y % 4])
+        elif op == 'grow':
+            steps.append([op, 1 + y % 3])
+        elif op == 'grow-attach':
+            steps.append([op, 1 + y % 3, x])
+        elif op == 'batch':
+            steps.append([op, x, 1 + y])
+        else:
+            steps.append([op, 1 + y % 3, x % 1000])
+    c['steps'] = steps
+    c['route'] = draw(_OBJ_ROUTE)
+    c['rseed'] = rseed
+    return c
+
+
+SUBCHECKS.append(
+    SubCheck('objects', run_objects, strategy=strat_objects, enumerate_cases=enum_objects,
+             quick=500, thorough=30000,
+             rule="one graph object, built in one of the legal ways and possibly used before it is written. "
+                  "Construction: add_edge in a random order / add_edges_from / from_networkx and normalize of a foreign "
+                  "networkx graph (labels mul*i+add, reversed insertion) / read from a kthlist, dimacs, matrix, gml or dot "
+                  "text written by the harness / networkx generators (complete, path, cycle, star, grid with tuple labels, "
+                  "digit-string labels, complete_bipartite_graph) / Graph.complete_graph, empty_graph, null_graph, star_graph, "
+                  "CompleteBipartiteGraph(L,R) with L,R in 0..12, BipartiteGraph(L,R) without edges, bipartite_shift, "
+                  "bipartite_random_left_regular / _m_edges (sparse and dense) / _regular / bipartite_random, dag_path, "
+                  "dag_pyramid, dag_complete_binary_tree / command-line specifications complete, empty, gnp, gnm, gnd, grid, "
+                  "torus, glrd, glrm, glrp, regular, shift, path, tree, pyramid with plantclique, plantbiclique, addedges, "
+                  "splitedges and `save <format> <file>` or `save <file.ext>` in every format (0..14 vertices for declared "
+                  "graphs, up to 20 after growth). History: 0..10 steps among inspections (edges() iterated once or twice, "
+                  "len(edges()), to_networkx, to_networkx whose result is then modified by the caller, neighbour lists, "
+                  "neighbour lists modified by the caller, has_edge on every pair, degrees, counts, "
+                  "edges_ordered_by_successors, is_dag), a writing in some format (StringIO, file name, file handle), "
+                  "add_edge of an absent pair / of a present edge (either orientation), remove_edge, remove_edge + add_edge "
+                  "of another pair (same edge count), update_vertex_number alone or followed by an edge on the new vertex, "
+                  "add_edges_from, split_random_edges, add_random_missing_edges; enumerated: every table entry as it is and "
+                  "after a fixed script, every (inspection or writing, edit) pair per type, every first format x route with "
+                  "an edit before the second writing. Oracle: a harness-side model (vertex counts + set of edges, updated by "
+                  "the harness for every edit; for random constructions and the two random library edits it is read from "
+                  "has_edge on all pairs); every writing in the middle and, at the end, a writing in EVERY format of the type "
+                  "must read back (tree reader: class, counts, split, list(edges()), number_of_edges, is_dag; in-house formats "
+                  "also the reference reader on the written text) as the model at that moment; objects whose graph is known by "
+                  "construction must equal it before anything else. Non-trivial: >=3 vertices, >=1 edge and an edit or a "
+                  "construction other than plain add_edge",
+             required_labels=['{}/{}'.format(t, f) for t in R.TYPES for f in FORMATS[t]] +
+             ['route:' + r for r in OBJ_ROUTES] +
+             ['same-count-other-edges-since-inspection', 'grown-since-inspection', 'other-count-since-inspection',
+              'written-twice-with-an-edit-in-between', 'edit-after-inspection', 'rewire', 'grow', 'split', 'addrandom',
+              'cli-save', 'model-read-from-object', 'mid-history-write', 'written-text-valid',
+              'ctor:special:CompleteBipartiteGraph', 'ctor:special:complete_graph', 'ctor:special:null_graph',
+              'ctor:special:empty_graph', 'ctor:special:star_graph', 'ctor:special:BipartiteGraph',
+              'ctor:special:bipartite_shift', 'ctor:special:dag_pyramid', 'ctor:cli:complete', 'ctor:cli:glrd',
+              'ctor:cli:gnp', 'ctor:cli:pyramid', 'ctor:nxgen:complete_bipartite_graph', 'ctor:nxgen:grid_2d_graph',
+              'ctor:from_networkx', 'ctor:normalize', 'ctor:add_edges_from', 'ctor:read:gml', 'ctor:read:dot',
+              'ctor:read:matrix', 'ctor:read:dimacs', 'ctor:read:kthlist', 'look:edges', 'look:nx', 'look:nx-mutate',
+              'look:nbrs', 'look:succ-order', '>=10-vertices', 'null-graph', 'empty-side']))
